@@ -270,4 +270,55 @@ class C03d(Obligation):
             ctx.check(ok, "the lookup chain equals Python's", known={'C03-class-comprehension': in_class_comp})
 
 
-OBLIGATIONS = [C03a, C03b, C03c, C03d]
+from jedi import parser_utils as jparser_utils  # noqa: E402
+
+
+def node_label(n):
+    t = n.type
+    if t == 'file_input':
+        return 'module'
+    if t == 'classdef':
+        return 'class:' + n.name.value
+    if t == 'funcdef':
+        return 'function:' + n.name.value
+    if t == 'lambdef':
+        return 'lambda'
+    return 'comprehension'
+
+
+class C03e(Obligation):
+    id = 'C03.e'
+    title = 'header rule: parameter names belong to their function, everything else in a def/class header to the enclosing scope'
+    pattern = 'P4 concrete tree x symbolic cursor; reference from CPython ast'
+    interpret_modules = ('jedi', 'parso', 'obligations')
+    loop_bound = 400
+    max_paths = 6000
+    assumptions = C03d.assumptions[:1] + (
+        'parser_utils.get_parent_scope is interpreted on the token under the symbolic cursor; the first iterable of a '
+        'comprehension may be attributed to the comprehension (jedi hides its bindings by position) - accepted',)
+
+    def scenario(self, ctx, cfg):
+        src = SCOPE_CORPUS[0]
+        script = jedi.Script(src)
+        scopes = name_scopes(src)
+        line = ctx.int('line')
+        column = ctx.int('column')
+        ctx.assume(ctx.Or(*[ctx.And(line == l, c < column, column <= c + 1) for (l, c) in scopes]))
+        leaf = ctx.run(script._module_node.get_leaf_for_position, (line, column))
+        if leaf is None or leaf.start_pos not in scopes:
+            ctx.check(False, 'the position resolves to that name token')
+            return
+        expected, binds, extra, in_class_comp = scopes[leaf.start_pos]
+        if expected[0] == 'comprehension' or extra == 'comprehension':
+            return      # get_parent_scope is deliberately coarse about comprehension elements (create_context is not: C03.d)
+        ctx.force(jparser_utils.get_parent_scope)
+        out = ctx.call(jparser_utils.get_parent_scope, leaf)
+        ctx.check(out.exc is None and out.value is not None, 'never raises')
+        if out.exc is None and out.value is not None:
+            got = node_label(out.value)
+            ctx.observe((leaf.value, leaf.start_pos, got), 'scope')
+            ctx.check(got == expected[0] or (extra is not None and got == extra),
+                      'the token belongs to the scope Python assigns it to')
+
+
+OBLIGATIONS = [C03a, C03b, C03c, C03d, C03e]
